@@ -9,7 +9,8 @@ Properties/Cxx.v and audit its Print Assumptions; rebuild the harness against /r
 generate cases; run the extracted model (driver) and the implementation (harness) on them in the
 build profiles the property needs; judge the implementation's output with the property's own
 predicate; compare model and implementation under the property's projection; write evidence."""
-import sys, os, json, time, random, argparse, traceback
+import sys, os, json, time, random, argparse, traceback, faulthandler, signal
+faulthandler.register(signal.SIGUSR1, all_threads=True)
 sys.path.insert(0, os.path.dirname(os.path.abspath(__file__)))
 sys.path.insert(0, os.path.join(os.path.dirname(os.path.dirname(os.path.abspath(__file__))), 'gen'))
 import lib
